@@ -18,9 +18,9 @@ def auto_shapes(shapes):
 
 def main(tier, seed):
     if tier == "quick":
-        return E.run_check(PID, tier, seed, shapes=auto_shapes(E.curated_shapes()), nops=4, maxdev=1, bfs_depth=5, probe_every=0, timing_depth=12)
+        return E.run_check(PID, tier, seed, shapes=auto_shapes(E.curated_shapes()), nops=4, maxdev=1, bfs_depth=5, probe_every=0, timing_depth=24)
     fam = auto_shapes(E.family_shapes())
-    return E.run_check(PID, tier, seed, shapes=auto_shapes(E.curated_shapes()) + fam, nops=5, maxdev=2, bfs_depth=7, probe_every=0, timing_depth=18, light_names=[s["name"] for s in fam], light_nops=4, light_bfs=5)
+    return E.run_check(PID, tier, seed, shapes=auto_shapes(E.curated_shapes()) + fam, nops=5, maxdev=2, bfs_depth=7, probe_every=0, timing_depth=30, light_names=[s["name"] for s in fam], light_nops=4, light_bfs=5)
 
 
 def replay(path):
